@@ -97,6 +97,13 @@ func (e *Explorer) Run(machines []*Machine, name string) (*HarnessReport, error)
 	if err != nil {
 		return nil, err
 	}
+	if strings.HasPrefix(name, "canonicalizer.") {
+		for _, m := range machines {
+			if err := m.ensureInit(e.l, modPath+"/canonicalizer"); err != nil {
+				return nil, err
+			}
+		}
+	}
 	t0 := time.Now()
 	e.rep = &HarnessReport{Name: name, ByEnd: map[string]int{}, Covers: map[string]bool{}, KnownHits: map[string]int{}}
 	e.queue = []WorkItem{{}}
